@@ -73,3 +73,15 @@ Definition eligible (q : query) : bool :=
 
 Definition sorted_rows (rows : list row) : Prop := forall i j, (i < j < length rows)%nat -> fst (nth i rows (0, None)) < fst (nth j rows (0, None)).
 Definition wf_segment (s : segment) : Prop := s_rows s <> [] /\ sorted_rows (s_rows s) /\ s_stats s = build_stats (s_rows s).
+
+(* ---- several aggregates in one statement: every column is aggregated on its own ----
+   A multi-column row is (time, value-or-null per selected field). A statement `select f(a), g(b), ..` asks, per column
+   i, for one component of the statistics of column i; the statistics of column i must not depend on the other columns
+   (a field that is entirely null in one container - memtable, file, segment - contributes `empty` for that column and
+   nothing else). *)
+Definition mrow := (Z * list (option Z))%type.
+Definition col (i : nat) (rows : list mrow) : list row := map (fun r : mrow => (fst r, nth i (snd r) None)) rows.
+Definition agg_multi_rows (n : nat) (rows : list mrow) : list stats := map (fun i => agg_rows (col i rows)) (seq 0 n).
+Definition col_segments (i : nat) (segs : list (list mrow)) : list segment := map (fun s => mk_segment (col i s)) segs.
+Definition agg_multi_short (n : nat) (lo hi : Z) (segs : list (list mrow)) (memrows : list mrow) : list stats :=
+  map (fun i => agg_short lo hi (col_segments i segs) (col i memrows)) (seq 0 n).
